@@ -312,11 +312,13 @@ private:
                 std::integral_constant<bool, is_bit_aligned_t::value> // TODO: Simplify after MPL removal
             > neg;
 
-        detail::swap_half_bytes
+        // the leftmost pixel of a PBM byte is its most significant bit, the first pixel of a bit aligned
+        // gil row is the least significant one (the writer mirrors the bits as well)
+        detail::mirror_bits
             <
                 typename rh_t::buffer_t,
                 std::integral_constant<bool, is_bit_aligned_t::value> // TODO: Simplify after MPL removal
-            > swhb;
+            > mirror( true );
 
         //Skip scanlines if necessary.
         for( y_t y = 0; y < this->_settings._top_left.y; ++y )
@@ -333,7 +335,7 @@ private:
                         );
 
             neg( rh.buffer() );
-            swhb( rh.buffer() );
+            mirror( rh.buffer() );
 
             this->_cc_policy.read( beg
                                  , end
